@@ -133,6 +133,7 @@ class UnitRun(object):
     def __init__(self, name):
         self.name = name
         self.variants = []
+        self.late_rescued = []
         self.unstable = []
         self.extra_smt_ms = 0
         self.unit = None
@@ -291,6 +292,21 @@ def build(name):
     return unit, data
 
 
+def build_late(name):
+    """same unit with every pure hint (lemma calls, asserts) moved to the end of its block"""
+    unit = extract.Unit(name, REPO)
+    unit.tmpl_props = {}
+    unit.late_hints = True
+    extract.process_template(unit, os.path.join(CONTRACTS, name + '.vrs'), PRELUDE)
+    for c in unit.chunks:
+        if c.origin['k'] == 'tmpl':
+            mm = re.search(r'\bfn\s+(\w+).*//#\s*([A-Z0-9,]+)\s*$', c.text.rstrip('\n'))
+            if mm:
+                unit.tmpl_props[mm.group(1)] = mm.group(2).split(',')
+    data = unit.finish()
+    return unit, data
+
+
 def build_probe(name):
     """same unit, with `assert(false)` as first statement of every verified fn body:
     every one of them must FAIL, otherwise the fn's precondition (or a shim axiom)
@@ -329,6 +345,27 @@ def run_unit(name, tier, want_probe=True):
     classify(unit, data, res['diags'], run)
     if res['rc'] != 0 and not res['diags']:
         run.frontend_errors.append('verus failed without diagnostics: ' + res.get('stderr_tail', ''))
+    if run.failures and not run.frontend_errors:
+        # second attempt: proof aids that only state facts are placed as late as possible in their block.
+        # A function that verifies in either placement is proved (the aids are not part of the claim).
+        try:
+            lunit, ldata = build_late(name)
+            if ldata != data:
+                lres = run_verus(ldata, name + '_late')
+                lrun = UnitRun(name)
+                classify(lunit, ldata, lres['diags'], lrun)
+                if not lrun.frontend_errors and not lrun.resource_errors:
+                    # a failing postcondition does not taint the other obligations of its function, a failing
+                    # assert / precondition / invariant does (the verifier assumes it afterwards)
+                    tainted = set(f['fn'] for f in lrun.failures if f['kind'] != 'ensures')
+                    late_ids = set(f['id'] for f in lrun.failures)
+                    keep = [f for f in run.failures if f['fn'] in tainted or f['id'] in late_ids]
+                    rescued = sorted(set(f['id'] for f in run.failures) - set(f['id'] for f in keep))
+                    if rescued:
+                        run.late_rescued = rescued
+                        run.failures = keep
+        except (AnchorLost, extract.Unsupported):
+            pass
     if vfuts:
         # a proof found under any seed is a proof: an obligation fails only if it fails in every variant
         run.variants = [{'variant': 'default', 'failed': sorted(set(f['id'] for f in run.failures)), 'resource': list(run.resource_errors),
